@@ -471,6 +471,7 @@ pub proof fn lemma_row_acc(w: int, rr: int, v: int, cin: int, cout: int, r: int,
 }
 
 //@ extract src/algorithms/mul_redc.rs fn square_redc
+/*+*/#[verifier::spinoff_prover]/*-*/
 pub fn square_redc<const N: usize>(a: [u64; N], modulus: [u64; N], inv: u64) -> /*+*/(res:/*-*/ [u64; N]/*+*/)
     requires
         N >= 1,
